@@ -570,6 +570,13 @@ func vfRunConnScenario(cfg vfConnScenarioCfg) (events []map[string]interface{}, 
 			tr.Emit("closed_ret", "conn", connID)
 		}
 	}
+	// the heartbeat is a caller too: the request it may have had in flight when the connection was
+	// closed has to return (it is logged as "call" at its tick)
+	if conn.Closed() {
+		for i := 0; i < 4000 && atomic.LoadInt64(&hbTicks) != atomic.LoadInt64(&hbRets); i++ {
+			time.Sleep(2 * time.Millisecond)
+		}
+	}
 	vfEmitWire(tr, mc, wireBase, connID, cfg.Proto, conn.Closed())
 	sc.gates.ReleaseAll()
 	return tr.Events(), ""
